@@ -31,11 +31,24 @@ case "$ID" in
     [ $rc -le 1 ] || { echo "check.sh: simulator exited with $rc (harness error)" >&2; exit 2; }
     exit $rc
     ;;
+  C16)
+    [ -f "$VERIF/sim16/Cargo.lock" ] || cp /repo/Cargo.lock "$VERIF/sim16/Cargo.lock" || exit 2
+    ( cd "$VERIF/sim16" && cargo build --release --offline --target-dir "$VERIF/sim/target" ) >"$VERIF/sim16/build.log" 2>&1 || {
+      echo "check.sh: building the C16 simulator against /repo (feature serde) failed (harness error, no verdict):" >&2
+      grep -E "^error" -A12 "$VERIF/sim16/build.log" | head -60 >&2
+      exit 2
+    }
+    if [ "${1:-}" = "--replay" ]; then exec "$VERIF/sim/target/release/dst-sim16" --replay "$2" --verif-dir "$VERIF"; fi
+    "$VERIF/sim/target/release/dst-sim16" --tier "$TIER" --seed "$SEED" --verif-dir "$VERIF"
+    rc=$?
+    [ $rc -le 1 ] || { echo "check.sh: simulator exited with $rc (harness error)" >&2; exit 2; }
+    exit $rc
+    ;;
   C17)
     exec python3 "$VERIF/sim_py/c17_check.py" --tier "$TIER" --seed "$SEED" "$@"
     ;;
   *)
-    echo "usage: check.sh <C17|C18> <quick|thorough> [--replay file]" >&2
+    echo "usage: check.sh <C16|C17|C18> <quick|thorough> [--replay file]" >&2
     exit 2
     ;;
 esac
